@@ -508,7 +508,7 @@ var JavascriptTestValue interface{}
 // Currently the Javascript implementation is
 // https://github.com/robertkrimen/otto.  We might also eventually
 // support https://code.google.com/p/v8/ .
-func RunJavascript(ctx *Context, bs *Bindings, props map[string]interface{}, src interface{}) (interface{}, error) {
+func RunJavascript(ctx *Context, bs *Bindings, props map[string]interface{}, src interface{}) (result interface{}, err error) {
 	timer := NewTimer(ctx, "RunJavascript")
 	defer timer.Stop()
 	Log(DEBUG, ctx, "core.RunJavascript", "code", src)
@@ -914,12 +914,17 @@ func RunJavascript(ctx *Context, bs *Bindings, props map[string]interface{}, src
 				if caught == Halt {
 					Log(WARN, ctx, "core.RunJavascript", "timedout", timeout,
 						"after", duration, "time", time.Now())
+					// Report the time-out to the caller (named
+					// results): not (nil, nil).
+					result, err = nil, fmt.Errorf("Javascript timed out after %v (limit %v)", duration, timeout)
 					return
 				}
 				panic(caught) // Something else happened, so repanic!
 			}
 		}()
-		watchdogCleanup := make(chan bool)
+		// Buffered: when the watchdog has fired it is no longer
+		// receiving, and the deferred send below must not block.
+		watchdogCleanup := make(chan bool, 1)
 		runtime.Interrupt = make(chan func(), 1) // No blocking
 
 		defer func() {
